@@ -1,6 +1,7 @@
 SPECIFICATION TraceSpec
 CONSTANTS
-  Chunks = {"k1", "k2", "k3", "k4", "k5", "k6"}
+  Chunks = {"k1", "k2", "k3", "k4", "k5", "k6", "o1", "o2"}
+  Producers = {"v1", "v2", "v3"}
   Kinds = {"valid", "wrong", "error"}
 CONSTRAINT HWM
 INVARIANTS AcceptTypeOK ChunksExact PrefixExact NeverFails
